@@ -14,6 +14,7 @@
 import SonicSpec.Model.SearchViews
 import SonicSpec.Proofs.SearchRaw
 import SonicSpec.Proofs.SearchPreorder
+import SonicSpec.Proofs.SearchDepth
 namespace SonicSpec.Props.C14
 open SonicSpec SonicSpec.Json SonicSpec.Search
 
@@ -196,6 +197,46 @@ theorem preorder_of_located {s : Bytes} {d : JVal} (h : parseDoc s = some d) (o 
   | none => rw [hw] at hl; have := search_missing h o p hw raw; exact absurd hr this
   | some w => rw [hw] at hl; simp [preorder_eq_flatten hl]
 
+/-! ## Preorder's nesting bound, sequences of lookups -/
+
+/-- with the nesting bound `L` (the real one is `maxRecurse` = `types.MAX_RECURSE`, re-read from the
+    source): on a valid document Preorder delivers the flattening when the REAL nesting depth of
+    the document fits, and the depth error otherwise - the number of containers met before
+    (siblings, empty arrays/objects) plays no role -/
+theorem preorder_depth_bound (L : Nat) {s : Bytes} {d : JVal} (h : parseDoc s = some d) :
+    preorderD L s = if depth d ≤ L then .ok (flatten d) else .tooDeep := by
+  unfold parseDoc at h
+  unfold preorderD
+  split at h
+  · rename_i v r hp
+    split at h
+    · cases h
+      rw [(travD_valid L _).1 0 _ _ _ (Nat.zero_le _) hp]
+      by_cases hd : depth d ≤ L <;> simp [hd]
+    · cases h
+  · cases h
+
+/-- depth error iff the real nesting depth exceeds MAX_RECURSE -/
+theorem preorder_depth_error_iff {s : Bytes} {d : JVal} (h : parseDoc s = some d) :
+    preorderD maxRecurse s = .tooDeep ↔ depth d > maxRecurse := by
+  rw [preorder_depth_bound maxRecurse h]
+  by_cases hd : depth d ≤ maxRecurse
+  · simp [hd]
+  · simp [hd]; omega
+
+/-- within the bound the bounded traversal is the unbounded one -/
+theorem preorder_within_bound {s : Bytes} {d : JVal} (h : parseDoc s = some d) (hd : depth d ≤ maxRecurse) :
+    preorderD maxRecurse s = .ok (flatten d) ∧ preorder s = some (flatten d) := by
+  refine ⟨?_, preorder_eq_flatten h⟩
+  rw [preorder_depth_bound maxRecurse h]; simp [hd]
+
+/-- a lookup inside a sequence of lookups on the same document answers exactly like the lookup
+    alone, whatever was looked up before or after it (and hence like `locate`, by
+    `search_eq_locate`) -/
+theorem lookup_sequence_history_free (o : Options) (s : Bytes) (before after : List Path) (p : Path) :
+    (searchSeq o s (before ++ p :: after))[before.length]? = some (search o s p) := by
+  simp [searchSeq]
+
 /-! ## non-vacuity: concrete documents (escaped key, duplicate key, brackets and quotes inside
     skipped strings, white space) -/
 
@@ -219,5 +260,11 @@ example : preorder [91, 49, 44, 123, 34, 107, 34, 58, 34, 92, 110, 34, 125, 93] 
 example : skipFast [49, 120, 44, 50] = some ([49, 120, 44, 50], [44, 50]) := by decide +kernel
 /-- and it is not a validator for containers either (`[}{]` is skipped as one array) -/
 example : (skipFast [91, 125, 123, 93]).isSome = true := by decide +kernel
+
+/-- 3 sibling empty arrays at depth 2 fit in bound 2; 3 nested arrays do not -/
+example : preorderD 2 [91, 91, 93, 44, 91, 93, 44, 91, 93, 93] =
+    .ok [.arrBegin, .arrBegin, .arrEnd, .arrBegin, .arrEnd, .arrBegin, .arrEnd, .arrEnd] := by decide +kernel
+example : preorderD 2 [91, 91, 91, 93, 93, 93] = .tooDeep := by decide +kernel
+example : maxRecurse = 4096 := by decide +kernel
 
 end SonicSpec.Props.C14
